@@ -13,10 +13,10 @@ checks = args or ["C%02d" % i for i in range(1, 19)]
 sid = f"{prop}-{var}"
 W = f"/tmp/mut/imp-{sid}"
 shutil.rmtree(W, ignore_errors=True); os.makedirs(W); os.makedirs('/tmp/mut/shared', exist_ok=True)
-env = dict(os.environ, CARGO_NET_OFFLINE="true", CARGO_TARGET_DIR="/tmp/mut/shared/test-target")
+# a private target directory per import: a shared one is unsound when imports run in parallel
+# (cargo's freshness test is mtime based and may reuse another copy's test binary)
+env = dict(os.environ, CARGO_NET_OFFLINE="true", CARGO_TARGET_DIR=f"{W}/test-target")
 def sh(cmd, **kw):
-    if cmd.startswith("cargo test"):
-        cmd = "flock /tmp/mut/shared/test.lock " + cmd
     return subprocess.run(cmd, shell=True, capture_output=True, text=True, errors="replace", env=env, **kw)
 sh(f"git -C /repo archive HEAD | tar -x -C {W} --one-top-level=repo")
 # archived files carry the commit's mtime: make them newer than anything a previous scratch copy
@@ -36,6 +36,7 @@ passed = sum(int(x) for x in re.findall(r"test result: ok\. (\d+) passed", r2.st
 suite_ok = "FAILED" not in r2.stdout and "error" not in r2.stdout.split("Running")[0] and passed == 55
 print(f"{sid}: demo passes without patch={demo_ok_without}; demo fails with patch={demo_fails_with}; existing suite with patch: {passed} passed ok={suite_ok}")
 shutil.rmtree(f"{W}/repo")
+shutil.rmtree(f"{W}/test-target", ignore_errors=True)
 det = sh(f"SKIP_TESTS=1 /verif/tools/try_patch.sh {src}/patch.diff seed-{sid} {' '.join(checks)}")
 print(det.stdout.strip()[-1500:])
 detected = re.findall(rf"seed-{sid} (C\d+) DETECTED (.*)", det.stdout)
